@@ -812,12 +812,14 @@ struct elements_iterator_t : boost::multi::random_accessable<elements_iterator_t
 	}
 
 	BOOST_MULTI_HD constexpr auto operator+=(difference_type n) -> elements_iterator_t& {
+		if(n == 0) { return *this; }  // also avoids from_linear (a division by the inner element count) on views with an empty inner extent
 		auto const nn = std::apply(xs_, ns_);
 		ns_ = xs_.from_linear(nn + n);
 		n_ += n;
 		return *this;
 	}
 	BOOST_MULTI_HD constexpr auto operator-=(difference_type n) -> elements_iterator_t& {
+		if(n == 0) { return *this; }
 		auto const nn = std::apply(xs_, ns_);
 		ns_ = xs_.from_linear(nn - n);
 		n_ -= n;
